@@ -239,6 +239,18 @@ func c01Bytes(c *Ctx, b []byte) bool {
 		return false
 	}
 	canonP := Canon(p)
+	// The parser can return a label with an EMPTY string value / a zero numeric value with an EMPTY
+	// unit when the input's string table holds a second empty string at a non-zero index. Such a
+	// label "cannot be represented and is dropped" by the next write — the normalisation the
+	// property allows — so the reference is normalize(p), exactly as for in-memory profiles, and the
+	// byte-identity fixpoint is demanded from the first re-parse on.
+	expected := c.Drv.Ask("codec.normalize " + canonP)
+	if c.Drv == nil {
+		expected = canonP
+	}
+	if expected != canonP {
+		c.Res.Hit("accepted-not-normal-form")
+	}
 	b1, pn := writeU(p)
 	if pn != "" {
 		c.Violation("C01/accepted/write-panic", pn, cs)
@@ -249,12 +261,17 @@ func c01Bytes(c *Ctx, b []byte) bool {
 		c.Violation("C01/accepted/reparse-error", err.Error(), cs)
 		return true
 	}
-	if Canon(p2) != canonP {
-		c.Violation("C01/accepted/"+diffField(Canon(p2), canonP), "a parser result does not survive write-then-parse unchanged", cs)
+	if Canon(p2) != expected {
+		c.Violation("C01/accepted/"+diffField(Canon(p2), expected), "a parser result does not survive write-then-parse unchanged (up to the allowed normalisation)", cs)
 	}
 	b2, _ := writeU(p2)
-	if !bytes.Equal(b1, b2) {
+	if p3, err := profile.ParseUncompressed(b2); err != nil || Canon(p3) != Canon(p2) {
+		c.Violation("C01/accepted/second-roundtrip", "the re-parsed profile does not survive a second write-then-parse unchanged", cs)
+	} else if b3, _ := writeU(p3); !bytes.Equal(b2, b3) {
 		c.Violation("C01/accepted/bytes", "a parser result does not re-serialize to identical bytes", cs)
+	}
+	if expected == canonP && !bytes.Equal(b1, b2) {
+		c.Violation("C01/accepted/bytes", "a parser result (already in normal form) does not re-serialize to identical bytes", cs)
 	}
 	// model agrees on uncompressed protobuf input
 	if len(b) > 0 && !(len(b) >= 2 && b[0] == 0x1f && b[1] == 0x8b) {
